@@ -22,6 +22,8 @@
 //!   capq <i> <client> <kind> <cls> <code> <path> <n> <payload>  like cap, the path given as UTF-8 bytes
 //!   capr <i> <client> <kind> <cls> <code> <cls2> <code2> <n2> <payload2>  the peer answers with an array of type 2
 //!   capt <i> <client>                                           the peer does not answer: the call times out
+//!   frag <i> <server> <cuts> <kind> <route> <cls> <code> <plen> <n> <payload>   the request written raw to a real
+//!                                   server in pieces (cuts: `1` = byte by byte, or offsets `a,b,c`; suffix `s` = stall)
 //!   seq <i> <cls> <code> <s1> <s2> <qafter> <qlen> <cap> <p1> <p2>   two body setters in a row on one builder
 //!   cap <i> <client> <kind> <cls> <code> <plen> <n> <payload>    the raw request frame a client helper puts on the
 //!                                                                wire (capture peer), then served by the borrowing route
@@ -877,6 +879,29 @@ fn op_stream<T: Elem>(c: &mut Ctx, complex: bool, id: u64, notify: bool, ec: u32
         }
     }
     {
+        // a sink that reports `Interrupted` on every other call and takes a few bytes otherwise
+        struct Interrupting { out: Vec<u8>, tick: u32, max: usize }
+        impl std::io::Write for Interrupting {
+            fn write(&mut self, buf: &[u8]) -> std::io::Result<usize> {
+                self.tick += 1;
+                if self.tick % 2 == 1 {
+                    return Err(std::io::Error::new(std::io::ErrorKind::Interrupted, "signal"));
+                }
+                let n = buf.len().min(self.max);
+                self.out.extend_from_slice(&buf[..n]);
+                Ok(n)
+            }
+            fn flush(&mut self) -> std::io::Result<()> { Ok(()) }
+        }
+        for max in [5usize, 48, 4096] {
+            let mut sink = Interrupting { out: Vec::new(), tick: 0, max };
+            let r = catch(|| if complex { repe::write_message_complex_slice(&mut sink, h, q, &cvec_of::<T>(payload)) } else { repe::write_message_typed_slice(&mut sink, h, q, &vec_of::<T>(payload)) });
+            if !matches!(r, Ok(Ok(()))) || sink.out != buffered {
+                c.fail(&format!("numeric.{}.interrupted_sink_ne_buffered", k), format!("a sink reporting Interrupted between writes of {} bytes: {} bytes arrived, builder frame {}", max, sink.out.len(), buffered.len()));
+            }
+        }
+    }
+    {
         // two frames into ONE sink, one after the other: the concatenation of the two builder frames
         let mut sink = Vec::new();
         let ok = catch(|| {
@@ -1014,9 +1039,9 @@ const PLENS: [usize; 9] = [1, 8, 9, 10, 11, 12, 13, 14, 15];
 
 struct Net {
     rt: tokio::runtime::Runtime,
-    addr: [String; 2],
-    sync_client: [repe::Client; 2],
-    async_client: [repe::AsyncClient; 2],
+    addr: [String; 3],
+    sync_client: [repe::Client; 3],
+    async_client: [repe::AsyncClient; 3],
     /// clients connected to the capture peer, and the frames it recorded
     /// WebSocket server (same router) and its client: only the serde helper exists there
     ws_client: repe::websocket_client::WebSocketClient,
@@ -1071,8 +1096,25 @@ fn start_capture() -> (String, std::sync::mpsc::Receiver<Vec<u8>>) {
                     if tx.send(frame).is_err() {
                         return;
                     }
-                    if !notify && stream.write_all(&resp).is_err() {
-                        return;
+                    if !notify {
+                        let qb = &rest[..q];
+                        let ok = if qb.starts_with(b"/!frag") {
+                            // the answer arrives in pieces (byte by byte for "/!frag1"), with a stall in the middle
+                            let step = if qb.starts_with(b"/!frag1") { 1 } else { (resp.len() / 3).max(1) };
+                            let mut good = true;
+                            for (i, piece) in resp.chunks(step).enumerate() {
+                                good &= stream.write_all(piece).is_ok() && stream.flush().is_ok();
+                                if i == 1 {
+                                    std::thread::sleep(std::time::Duration::from_millis(25));
+                                }
+                            }
+                            good
+                        } else {
+                            stream.write_all(&resp).is_ok()
+                        };
+                        if !ok {
+                            return;
+                        }
                     }
                 }
             });
@@ -1110,8 +1152,26 @@ fn make_router() -> Router {
     r
 }
 
+static SEED: std::sync::atomic::AtomicU64 = std::sync::atomic::AtomicU64::new(1);
+
+/// Index of a TCP server token (0 blocking, 1 async, 3 blocking with read/write timeouts and nodelay) in the tables.
+fn srv_ix(token: usize) -> usize {
+    if token == 3 { 2 } else { token }
+}
+
 fn start_net() -> Net {
-    let rt = tokio::runtime::Builder::new_multi_thread().worker_threads(2).enable_all().build().unwrap();
+    // odd seeds: a starved runtime (one worker, one blocking thread); even seeds: two of each
+    let k = 1 + (SEED.load(std::sync::atomic::Ordering::Relaxed) % 2) as usize;
+    let rt = tokio::runtime::Builder::new_multi_thread().worker_threads(k).max_blocking_threads(k).enable_all().build().unwrap();
+    let l3 = std::net::TcpListener::bind("127.0.0.1:0").unwrap();
+    let a3 = l3.local_addr().unwrap().to_string();
+    let srv3 = repe::Server::new(make_router())
+        .read_timeout(Some(std::time::Duration::from_secs(25)))
+        .write_timeout(Some(std::time::Duration::from_secs(25)))
+        .tcp_nodelay(true);
+    std::thread::spawn(move || {
+        let _ = srv3.serve(l3);
+    });
     let listener = std::net::TcpListener::bind("127.0.0.1:0").unwrap();
     let a0 = listener.local_addr().unwrap().to_string();
     let srv = repe::Server::new(make_router());
@@ -1127,8 +1187,8 @@ fn start_net() -> Net {
         });
         a
     });
-    let sync_client = [repe::Client::connect(&a0).unwrap(), repe::Client::connect(&a1).unwrap()];
-    let async_client = rt.block_on(async { [repe::AsyncClient::connect(&a0).await.unwrap(), repe::AsyncClient::connect(&a1).await.unwrap()] });
+    let sync_client = [repe::Client::connect(&a0).unwrap(), repe::Client::connect(&a1).unwrap(), repe::Client::connect(&a3).unwrap()];
+    let async_client = rt.block_on(async { [repe::AsyncClient::connect(&a0).await.unwrap(), repe::AsyncClient::connect(&a1).await.unwrap(), repe::AsyncClient::connect(&a3).await.unwrap()] });
     let ws_url = rt.block_on(async {
         let l = tokio::net::TcpListener::bind("127.0.0.1:0").await.unwrap();
         let a = l.local_addr().unwrap();
@@ -1142,7 +1202,7 @@ fn start_net() -> Net {
     let (ca, rx) = start_capture();
     let cap_sync = repe::Client::connect(&ca).unwrap();
     let cap_async = rt.block_on(async { repe::AsyncClient::connect(&ca).await.unwrap() });
-    Net { rt, addr: [a0, a1], sync_client, async_client, ws_client, cap_sync, cap_async, captured: Mutex::new(rx) }
+    Net { rt, addr: [a0, a1, a3], sync_client, async_client, ws_client, cap_sync, cap_async, captured: Mutex::new(rx) }
 }
 
 #[allow(clippy::too_many_arguments)]
@@ -1152,12 +1212,12 @@ fn op_net<T: Elem>(c: &mut Ctx, server: usize, client: &str, kind: &str, route: 
     let path = net_path(route, cls, code, plen);
     let t = std::time::Duration::from_secs(30);
     let r: Result<Vec<T>, repe::RepeError> = match (client, kind) {
-        ("sync", "bulk") => net.sync_client[server].call_typed_slice_with_timeout(&path, &xs, t),
-        ("sync", "aligned") => net.sync_client[server].call_typed_slice_aligned_with_timeout(&path, &xs, t),
-        ("sync", "serde") => net.sync_client[server].call_typed_beve_with_timeout(&path, &xs, t),
-        ("async", "bulk") => net.rt.block_on(net.async_client[server].call_typed_slice_with_timeout(&path, &xs, t)),
-        ("async", "aligned") => net.rt.block_on(net.async_client[server].call_typed_slice_aligned_with_timeout(&path, &xs, t)),
-        ("async", "serde") => net.rt.block_on(net.async_client[server].call_typed_beve_with_timeout(&path, &xs, t)),
+        ("sync", "bulk") => net.sync_client[srv_ix(server)].call_typed_slice_with_timeout(&path, &xs, t),
+        ("sync", "aligned") => net.sync_client[srv_ix(server)].call_typed_slice_aligned_with_timeout(&path, &xs, t),
+        ("sync", "serde") => net.sync_client[srv_ix(server)].call_typed_beve_with_timeout(&path, &xs, t),
+        ("async", "bulk") => net.rt.block_on(net.async_client[srv_ix(server)].call_typed_slice_with_timeout(&path, &xs, t)),
+        ("async", "aligned") => net.rt.block_on(net.async_client[srv_ix(server)].call_typed_slice_aligned_with_timeout(&path, &xs, t)),
+        ("async", "serde") => net.rt.block_on(net.async_client[srv_ix(server)].call_typed_beve_with_timeout(&path, &xs, t)),
         // server index 2: the WebSocket server, reached by the WebSocket client's serde helper
         ("ws", "serde") => net.rt.block_on(net.ws_client.call_typed_beve_with_timeout(&path, &xs, t)),
         _ => panic!("unknown client kind"),
@@ -1575,6 +1635,78 @@ fn op_capt(c: &mut Ctx, client: &str) -> (String, bool) {
     (format!("{} {}", c.idx, if r.is_ok() { "ok" } else { "err" }), false)
 }
 
+/// The request of a client helper, built by the buffered builder and written RAW to a real server in
+/// pieces (byte by byte, or cut at the given offsets, optionally with a stall); the answer is read raw and
+/// decoded by the independent layout reader.  What is served must not depend on how the bytes arrived.
+#[allow(clippy::too_many_arguments)]
+fn op_frag<T: Elem>(c: &mut Ctx, server: usize, cuts: &str, kind: &str, route: &str, cls: u8, code: u8, plen: usize, n: usize, payload: &[u8]) -> (String, bool) {
+    use std::io::{Read, Write};
+    let net = c.net.expect("net started");
+    let xs: Vec<T> = vec_of(payload);
+    let path = net_path(route, cls, code, plen);
+    let b = Message::builder().id(4242).query_str(&path).query_format(repe::constants::QueryFormat::JsonPointer);
+    let frame = match kind {
+        "bulk" => b.body_typed_slice(&xs).build(),
+        "aligned" => b.body_aligned_typed_slice(&xs).build(),
+        _ => b.body_beve(&xs).expect("serde encode").build(),
+    }
+    .to_vec();
+    let stall = cuts.ends_with('s');
+    let spec = cuts.trim_end_matches('s');
+    let mut offs: Vec<usize> = if spec == "1" { (1..frame.len()).collect() } else { spec.split(',').filter_map(|x| x.parse().ok()).filter(|o| *o > 0 && *o < frame.len()).collect() };
+    offs.sort();
+    offs.dedup();
+    let mut stream = std::net::TcpStream::connect(&net.addr[srv_ix(server)]).expect("connect");
+    let _ = stream.set_nodelay(true);
+    let _ = stream.set_read_timeout(Some(std::time::Duration::from_secs(30)));
+    let mut at = 0;
+    for (i, o) in offs.iter().chain(std::iter::once(&frame.len())).enumerate() {
+        if stream.write_all(&frame[at..*o]).is_err() || stream.flush().is_err() {
+            break;
+        }
+        at = *o;
+        if stall && i == offs.len() / 2 {
+            std::thread::sleep(std::time::Duration::from_millis(40));
+        } else if offs.len() < 64 {
+            std::thread::sleep(std::time::Duration::from_millis(1));
+        }
+    }
+    let mut hdr = [0u8; 48];
+    let tag = format!("numeric.frag.{}.{}", kind, route);
+    let expect_served = !(kind == "aligned" && route != "ref");
+    if stream.read_exact(&mut hdr).is_err() {
+        c.fail(&format!("{}.no_answer", tag), format!("no answer to a request written in {} pieces", offs.len() + 1));
+        return (format!("{} no-answer", c.idx), false);
+    }
+    let ql = u64::from_le_bytes(hdr[24..32].try_into().unwrap()) as usize;
+    let bl = u64::from_le_bytes(hdr[32..40].try_into().unwrap()) as usize;
+    let ec = u32::from_le_bytes(hdr[44..48].try_into().unwrap());
+    let mut rest = vec![0u8; (ql + bl).min(1 << 28)];
+    let _ = stream.read_exact(&mut rest);
+    let body = &rest[ql.min(rest.len())..];
+    let s = if ec != 0 {
+        if expect_served {
+            c.fail(&format!("{}.failed", tag), format!("request in {} pieces answered with error code {}", offs.len() + 1, ec));
+        }
+        format!("err Server({})", ec)
+    } else {
+        let got: Option<(usize, Vec<u8>)> = if body[..] == [0x05, 0x00] { Some((0, vec![])) } else { regular_layout(body, cls, code, T::W).map(|(d, k)| (k, body[d..d + k * T::W].to_vec())) };
+        match got {
+            Some((k, p)) => {
+                if k != n || p != payload || !expect_served {
+                    c.fail(&format!("{}.elements_differ", tag), format!("request in {} pieces: {} elements came back, bits equal: {}", offs.len() + 1, k, p == payload));
+                }
+                format!("ok {}", show_elems(k, &p))
+            }
+            None => {
+                c.fail(&format!("{}.answer_malformed", tag), "the answer is not a typed array of the element type".into());
+                "ok ?".to_string()
+            }
+        }
+    };
+    (format!("{} {}", c.idx, s), ec == 0)
+}
+
 fn cap_path(plen: usize) -> String {
     if plen == 0 { String::new() } else { format!("/{}", "c".repeat(plen - 1)) }
 }
@@ -1703,7 +1835,7 @@ fn exec(out: &mut Out, line: &str, net: Option<&Net>) {
     let w = words(line);
     let idx = w.get(1).copied().unwrap_or("?");
     // panics are caught per op; only the socket ops (which can hang the process) leave a marker file
-    if matches!(w[0], "net" | "cap" | "capq" | "capr" | "capt") {
+    if matches!(w[0], "net" | "cap" | "capq" | "capr" | "capt" | "frag") {
         out.begin(line);
     }
     let mut c = Ctx { out: &mut *out, line, idx, net };
@@ -1812,6 +1944,11 @@ fn exec(out: &mut Out, line: &str, net: Option<&Net>) {
             dispatch!(cls, code, op_capr(&mut c, w[2], w[3], (cls, code) == (c2, k2), resp, u(w[8]), &p2))
         }
         "capt" => op_capt(&mut c, w[2]),
+        "frag" => {
+            let (cls, code) = ty(w[6], w[7]);
+            let p = unhex(w[10]).unwrap();
+            dispatch!(cls, code, op_frag(&mut c, u(w[2]), w[3], w[4], w[5], cls, code, u(w[8]), u(w[9]), &p))
+        }
         "abld" => {
             let (cls, code) = ty(w[2], w[3]);
             let q = unhex(w[6]).unwrap();
@@ -2018,6 +2155,13 @@ fn corrupt(r: &mut Rng, body: &[u8]) -> Vec<u8> {
     b
 }
 
+/// Body-format codes that are not Beve (1): neighbours, other reserved codes, and every 16-bit "looks
+/// like 1" class — 1 with each higher bit / nibble / byte set, 1 + 256, byte-swapped, sign bit, all ones.
+const NOT_BEVE: [u16; 30] = [
+    0, 2, 3, 4, 5, 255, 256, 257, 0x0101, 0x0100, 0x0011, 0x0081, 0x0201, 0x0401, 0x0801, 0x0FFF, 0x1000, 0x1001, 0x2001,
+    0x4001, 0x8001, 0xF001, 0xFF01, 0x7FFF, 0x8000, 0xFFFE, 0xFFFF, 999, 4096 + 2, 0x0003,
+];
+
 fn generate(seed: u64, thorough: bool) -> Vec<String> {
     let mut g = Gen { r: Rng::new(seed), ops: Vec::new(), i: 0 };
 
@@ -2133,7 +2277,7 @@ fn generate(seed: u64, thorough: bool) -> Vec<String> {
             for _ in 0..3 {
                 let src = match g.r.below(3) { 0 => &regular, 1 => &aligned, _ => &generic };
                 let bad = corrupt(&mut g.r, src);
-                let fmt = if g.r.chance(1, 8) { *g.r.pick(&[0u16, 2, 3, 4, 999]) } else { 1 };
+                let fmt = if g.r.chance(1, 8) { *g.r.pick(&NOT_BEVE) } else { 1 };
                 push!(g, "ref", "{} {} {} {} {} {}", cls, code, fmt, g.r.below(8), qlen, hex(&bad));
                 push!(g, "slice", "{} {} {} {} {}", cls, code, fmt, qlen, hex(&bad));
                 push!(g, "dec", "{} {} {} {}", cls, code, fmt, hex(&bad));
@@ -2262,7 +2406,7 @@ fn generate(seed: u64, thorough: bool) -> Vec<String> {
         }
     }
     for (cls, code, w) in TYPES {
-        for fmt in [0u16, 2, 3, 4, 255, 257, 65535] {
+        for fmt in NOT_BEVE {
             let n = g.r.below(6) as usize;
             let p = gen_payload(&mut g.r, cls, code, w, n, 1);
             push!(g, "wrongfmt", "{} {} {} {} {}", cls, code, fmt, n, hex(&p));
@@ -2412,7 +2556,7 @@ fn generate(seed: u64, thorough: bool) -> Vec<String> {
                 6 => dispatch!(cls, code, real_aligned(q.len() + 1 + g.r.below(7) as usize, &p)),
                 _ => dispatch!(cls, code, real_aligned(q.len(), &p)),
             };
-            let fmt = if g.r.chance(1, 9) { *g.r.pick(&[0u16, 2, 3, 65535]) } else { 1 };
+            let fmt = if g.r.chance(1, 9) { *g.r.pick(&NOT_BEVE) } else { 1 };
             let hk = *g.r.pick(&["same", "same", "slow", "bytes", "err", "err", "panics", "panicstr", "panicint"]);
             let mis = if g.r.chance(1, 2) { 0 } else { g.r.below(16) };
             line.push_str(&format!(" {} {} {} {}", hk, fmt, mis, hex(&body)));
@@ -2447,6 +2591,129 @@ fn generate(seed: u64, thorough: bool) -> Vec<String> {
             for mis in [0usize, g.r.range(1, 15) as usize] {
                 push!(g, "abld", "{} {} {} {} {} {} {}", cls, code, mis, g.r.below(2), hex(&q), n, hex(&p));
             }
+        }
+    }
+
+    // ---- 6e. sizes around internal constants (8 KiB buffered reader / writer, 64 KiB, 128 KiB, 1 MiB) on every
+    //          entry point: payload bytes just below / at / just above, typed and complex
+    let mut targets: Vec<usize> = vec![8191, 8192, 8193, 8192 - 48 - 9, 65535, 65536, 65537, 131071, 131073];
+    if thorough {
+        targets.extend_from_slice(&[8192 - 48, 16384, 32768 + 1, 196609, 1048575, 1048576, 1048577, 2097153]);
+    } else {
+        targets.push(*g.r.pick(&[1048575usize, 1048577]));
+    }
+    for (i, bytes) in targets.iter().enumerate() {
+        let (cls, code, w) = [(2u8, 0u8, 1usize), (0, 3, 8), (1, 1, 2), (0, 2, 4), (2, 4, 16)][(i + g.r.below(5) as usize) % 5];
+        // element counts whose byte size straddles the target
+        let n = bytes / w + if bytes % w == 0 { 0 } else { 1 };
+        let n = if g.r.chance(1, 2) && n > 1 && bytes % w == 0 { n } else { n + (i % 2) };
+        let p = gen_payload(&mut g.r, cls, code, w, n, 1);
+        let plen = *g.r.pick(&PLENS[1..]);
+        let q = path_of(g.r.below(20) as usize).into_bytes();
+        push!(g, "enc", "{} {} {} {}", cls, code, n, hex(&p));
+        push!(g, "stream", "{} {} {} 0 0 1 {} {} {}", cls, code, g.r.boundary(64), hex(&q), n, hex(&p));
+        let cn = bytes / (2 * w) + 1;
+        let cp = gen_payload(&mut g.r, cls, code, w, cn, 2);
+        push!(g, "cstream", "{} {} {} 1 0 1 {} {} {}", cls, code, g.r.boundary(64), hex(&q), cn, hex(&cp));
+        push!(g, "cenc", "{} {} {} {}", cls, code, cn, hex(&cp));
+        let regular = real_typed_body(cls, code, &p);
+        let aligned = dispatch!(cls, code, real_aligned(q.len(), &p));
+        push!(g, "dec", "{} {} 1 {}", cls, code, hex(&regular));
+        push!(g, "cdec", "{} {} 1 {}", cls, code, hex(&real_complex_body(cls, code, &cp)));
+        // both dispatch paths of both routes
+        push!(g, "slice", "{} {} 1 {} {}", cls, code, q.len(), hex(&regular));
+        push!(g, "ref", "{} {} 1 {} {} {}", cls, code, g.r.below(16), q.len(), hex(&regular));
+        push!(g, "ref", "{} {} 1 0 {} {}", cls, code, q.len(), hex(&aligned));
+        push!(g, "aref", "{} {} 0 {} 0 1 {} {}", cls, code, q.len(), n, hex(&p));
+        push!(g, "seq", "{} {} bytes typed 0 {} {} {} {}", cls, code, q.len(), bytes + 200, hex(&p[..(p.len() / (2 * w)) * 2 * w]), hex(&p[..(p.len() / (2 * w)) * 2 * w]));
+        if i % 2 == 0 || thorough {
+            push!(g, "net", "{} {} bulk slice {} {} {} {} {}", *g.r.pick(&[0, 1, 3]), *g.r.pick(&["sync", "async"]), cls, code, plen, n, hex(&p));
+            push!(g, "net", "{} {} aligned ref {} {} {} {} {}", *g.r.pick(&[0, 1, 3]), *g.r.pick(&["sync", "async"]), cls, code, plen, n, hex(&p));
+            push!(g, "cap", "{} aligned {} {} {} {} {}", *g.r.pick(&["sync", "async", "syncp", "asyncp"]), cls, code, g.r.below(17), n, hex(&p));
+        } else {
+            push!(g, "net", "{} {} serde typed {} {} {} {} {}", *g.r.pick(&[0, 1, 3]), *g.r.pick(&["sync", "async"]), cls, code, plen, n, hex(&p));
+            push!(g, "net", "{} {} bulk ref {} {} {} {} {}", *g.r.pick(&[0, 1, 3]), *g.r.pick(&["sync", "async"]), cls, code, plen, n, hex(&p));
+        }
+    }
+
+    // ---- 6f. N identical events in a row on one route handler, then an ordinary request --------------------
+    let mut runs: Vec<usize> = vec![1, 2, 7, 8, 9, 16, 17, 64, 65];
+    if thorough {
+        runs.extend_from_slice(&[256, 257, 1000]);
+    }
+    for (i, run) in runs.iter().enumerate() {
+        for event in ["wrongtype", "wrongfmt", "corrupt", "err", "panics", "unaligned", "empty"] {
+            if !thorough && *run > 17 && (i + event.len()) % 3 != 0 {
+                continue;
+            }
+            let (cls, code, w) = TYPES[(i * 3 + event.len()) % 14];
+            let (c2, k2, w2) = TYPES[(i * 3 + event.len() + 5) % 14];
+            let kind = if event == "unaligned" || i % 2 == 0 { "ref" } else { "slice" };
+            let q = path_of(g.r.below(16) as usize).into_bytes();
+            let p = gen_payload(&mut g.r, cls, code, w, 3, 1);
+            let good_regular = real_typed_body(cls, code, &p);
+            let good_aligned = dispatch!(cls, code, real_aligned(q.len(), &p));
+            let (hk, fmt, mis, body): (&str, u16, usize, Vec<u8>) = match event {
+                "wrongtype" => ("same", 1, 0, real_typed_body(c2, k2, &gen_payload(&mut g.r, c2, k2, w2, 2, 1))),
+                "wrongfmt" => ("same", *g.r.pick(&NOT_BEVE), 0, good_regular.clone()),
+                "corrupt" => ("same", 1, 0, good_regular[..good_regular.len() - 1].to_vec()),
+                "err" => ("err", 1, 0, good_regular.clone()),
+                "panics" => ("panics", 1, 0, good_regular.clone()),
+                "unaligned" => ("same", 1, if w > 1 { 1 } else { 0 }, good_aligned.clone()),
+                _ => ("same", 1, 0, real_typed_body(cls, code, &[])),
+            };
+            let mut line = format!("{} 0 {} {} {} {}", kind, cls, code, hex(&q), run + 2);
+            for _ in 0..*run {
+                line.push_str(&format!(" {} {} {} {}", hk, fmt, mis, hex(&body)));
+            }
+            // then: the borrowing route still borrows an aligned request, the bulk route still serves
+            if kind == "ref" {
+                line.push_str(&format!(" same 1 0 {}", hex(&good_aligned)));
+            } else {
+                line.push_str(&format!(" same 1 0 {}", hex(&good_regular)));
+            }
+            line.push_str(&format!(" bytes 1 {} {}", g.r.below(16), hex(&good_regular)));
+            g.push("hseq", line);
+        }
+    }
+    // N calls in a row that time out / are answered with another element type, then ordinary calls (section 7)
+    for (client, runlen) in [("sync", 2usize), ("async", 3)] {
+        for _ in 0..(if thorough { runlen + 6 } else { runlen }) {
+            push!(g, "capt", "{}", client);
+        }
+        for _ in 0..(if thorough { 17 } else { 9 }) {
+            push!(g, "capr", "{} aligned 0 3 2 1 2 01000200", client);
+        }
+        push!(g, "cap", "{} aligned 0 3 3 2 000000000000f03f000000000000f0ff", client);
+    }
+
+    // ---- 6g. the request written raw to the real servers in pieces ----------------------------------------
+    for round in 0..(if thorough { 120 } else { 24 }) {
+        let (cls, code, w) = TYPES[round % 14];
+        let (kind, route) = [("aligned", "ref"), ("bulk", "slice"), ("serde", "slice"), ("bulk", "typed"), ("aligned", "ref"), ("bulk", "ref")][round % 6];
+        let one_byte = round % 8 == 7;
+        let n = if one_byte { g.r.below(5) as usize } else if round % 5 == 0 { 9000 / w } else { g.r.below(80) as usize };
+        let p = gen_payload(&mut g.r, cls, code, w, n, 1);
+        let plen = *g.r.pick(&PLENS[1..]);
+        let total = 48 + plen + n * w + 12;
+        let cuts = if one_byte {
+            "1".to_string()
+        } else {
+            let mut v = vec![g.r.range(1, 47), *g.r.pick(&[47u64, 48, 49]), 48 + g.r.below(plen as u64 + 1), 48 + plen as u64 + g.r.below(6)];
+            if round % 3 == 0 {
+                v.push(g.r.range(48, total as u64));
+                v.push(*g.r.pick(&[8192u64, 8191, 8193]));
+            }
+            let t: Vec<String> = v.iter().take(2 + round % 5).map(|x| x.to_string()).collect();
+            format!("{}{}", t.join(","), if round % 4 == 1 { "s" } else { "" })
+        };
+        push!(g, "frag", "{} {} {} {} {} {} {} {} {}", *g.r.pick(&[0, 1, 3]), cuts, kind, route, cls, code, plen, n, hex(&p));
+    }
+    // answers that arrive in pieces / byte by byte with a stall
+    for client in ["sync", "asyncp"] {
+        for (path, n) in [("/!frag/x", 40usize), ("/!frag1", 3), ("/!frag/big", 1200)] {
+            let p = gen_payload(&mut g.r, 0, 3, 8, n, 1);
+            push!(g, "capq", "{} bulk 0 3 {} {} {}", client, hex(path.as_bytes()), n, hex(&p));
         }
     }
 
@@ -2514,20 +2781,26 @@ fn main() {
     let args = Args::parse();
     quiet_panics();
     let mut out = Out::new(&args.out);
-    out.rule = "element types bf16,f16,f32,f64,i8..i64,u8..u64 as raw little-endian blocks (NaN payloads quiet/signalling, ±inf, ±0, subnormals, min/max, random bits); vectors of every length 0..70 (thorough: 0..4096) plus 127..4096 boundaries, 2^14±1 and (thorough) one 2^20; complex pairs; three-way comparison bulk body / serde body / model, both decoders on both bodies incl. the empty vector; aligned form behind every query length 0..64 for every type and SIZE width, the frame copied to every base misalignment 0..7 of a Vec<u64> and served by the with_typed_slice_ref handler (pointer-range test: borrowed iff payload address aligned); regular / generic / aligned-for-another-offset / corrupted bodies and every first byte through both bulk routes (view and owned); every ordered pair of distinct element types in regular, aligned and complex form; wrong body formats; streaming writers (typed, complex and write_message_streaming itself; Vec sink and write-only / gathering sinks taking 1..1000 bytes per call, limits around the header end and the query end, every query length 0..64) vs buffered builders; real Server and AsyncServer with bulk, aligned and serde clients (blocking and async); two body setters in a row on one builder for every ordered pair of setters (bytes with spare capacity, utf8, json, beve, typed, complex, aligned; query before / after): the last setter wins; 3..5 requests through one route handler instance (bare / behind a middleware; closure echoing, answering another element type, returning Err, panicking with String / &str / non-string payloads; bodies > 64 KiB; arbitrary query bytes), each step judged from the raw bytes by an independent layout reader; aligned builder behind non-UTF-8 and long (≤ 100 k) queries; client calls answered with arrays of another element type, calls that time out followed by further calls on the same client, non-ASCII and long paths; the raw request frame every client helper writes, captured by a stand-in peer for every element type and path length 0..16 (+ longer), compared with the MessageBuilder frame and served by the borrowing route at base misalignments 0..7. Distinct by op line; non-trivial = the decoder / route / call accepted and returned elements (encoders: non-empty vector)".into();
+    out.rule = "element types bf16,f16,f32,f64,i8..i64,u8..u64 as raw little-endian blocks (NaN payloads quiet/signalling, ±inf, ±0, subnormals, min/max, random bits); vectors of every length 0..70 (thorough: 0..4096) plus 127..4096 boundaries, 2^14±1 and (thorough) one 2^20; complex pairs; three-way comparison bulk body / serde body / model, both decoders on both bodies incl. the empty vector; aligned form behind every query length 0..64 for every type and SIZE width, the frame copied to every base misalignment 0..7 of a Vec<u64> and served by the with_typed_slice_ref handler (pointer-range test: borrowed iff payload address aligned); regular / generic / aligned-for-another-offset / corrupted bodies and every first byte through both bulk routes (view and owned); every ordered pair of distinct element types in regular, aligned and complex form; wrong body formats; streaming writers (typed, complex and write_message_streaming itself; Vec sink and write-only / gathering sinks taking 1..1000 bytes per call, limits around the header end and the query end, every query length 0..64) vs buffered builders; real Server and AsyncServer with bulk, aligned and serde clients (blocking and async); two body setters in a row on one builder for every ordered pair of setters (bytes with spare capacity, utf8, json, beve, typed, complex, aligned; query before / after): the last setter wins; 3..5 requests through one route handler instance (bare / behind a middleware; closure echoing, answering another element type, returning Err, panicking with String / &str / non-string payloads; bodies > 64 KiB; arbitrary query bytes), each step judged from the raw bytes by an independent layout reader; aligned builder behind non-UTF-8 and long (≤ 100 k) queries; client calls answered with arrays of another element type, calls that time out followed by further calls on the same client, non-ASCII and long paths; payload sizes just below / at / above 8 KiB, 64 KiB, 128 KiB, 1 MiB on every entry point (typed and complex, streaming writers included); runs of 1..65 (thorough 1000) identical bad events through one handler followed by an ordinary request, runs of timed-out / wrongly answered calls on one client; requests written raw to the real servers byte by byte / at cut points around 48 and the query end with stalls, answers arriving in pieces; sinks reporting Interrupted; 30 non-Beve format codes incl. every 16-bit look-alike of 1; a third server with read/write timeouts and nodelay, a starved runtime on odd seeds; the raw request frame every client helper writes, captured by a stand-in peer for every element type and path length 0..16 (+ longer), compared with the MessageBuilder frame and served by the borrowing route at base misalignments 0..7. Distinct by op line; non-trivial = the decoder / route / call accepted and returned elements (encoders: non-empty vector)".into();
     let ops = match args.replay_ops() {
         Some(o) => o,
         // `--release-shape` (the optimised-build run of the thorough tier): the quick-sized mix, other seed
         None if args.has("--release-shape") => generate(args.seed.wrapping_add(0x5EED), false),
         None => generate(args.seed, args.thorough()),
     };
-    let need_net = ops.iter().any(|l| l.starts_with("net ") || l.starts_with("cap"));
+    SEED.store(args.seed, std::sync::atomic::Ordering::Relaxed);
+    let need_net = ops.iter().any(|l| l.starts_with("net ") || l.starts_with("cap") || l.starts_with("frag "));
     let net = if need_net { Some(start_net()) } else { None };
     for line in &ops {
         if line.trim().is_empty() {
             continue;
         }
         exec(&mut out, line, net.as_ref());
+        if out.oracle_failures >= 12 && args.replay.is_none() {
+            // a broken tree: the first dozen failing inputs are enough, do not run the rest
+            out.count("stopped_after_12_oracle_failures");
+            break;
+        }
     }
     out.finish();
     std::process::exit(0); // servers run on detached threads
